@@ -21,8 +21,8 @@ let str_b b = if b then "1" else "0"
 let str_ob = function None -> "-" | Some b -> str_b b
 
 let split_on s sep =
-  List.filter (fun x -> x <> "") (List.map String.trim (String.split_on_char sep s))
-let words s = List.filter (fun x -> x <> "") (String.split_on_char ' ' s)
+  Stdlib.List.filter (fun x -> x <> "") (Stdlib.List.map Stdlib.String.trim (Stdlib.String.split_on_char sep s))
+let words s = Stdlib.List.filter (fun x -> x <> "") (Stdlib.String.split_on_char ' ' s)
 
 (* ---------- C07: session window ---------- *)
 let c07_ev (s : string) : Window.ev =
@@ -48,7 +48,7 @@ let c07_frame (f : Window.sframe) : string =
 let c07_counters (s : Window.sess) : string =
   Printf.sprintf "noi=%s nii=%s riw=%s row=%s nfc=%s buf=%d dmap=%d"
     (str_n s.Window.s_noi) (str_n s.Window.s_nii) (str_n s.Window.s_riw) (str_n s.Window.s_row)
-    (str_n s.Window.s_nfc) (List.length s.Window.s_buf) (List.length s.Window.s_dmap)
+    (str_n s.Window.s_nfc) (Stdlib.List.length s.Window.s_buf) (Stdlib.List.length s.Window.s_dmap)
 
 let c07 (rest : string) : string =
   match split_on rest '|' with
@@ -60,9 +60,9 @@ let c07 (rest : string) : string =
                       (n_of_string bnoi) (n_of_string biw) (n_of_string bow) in
            (* step event by event so that counters can be printed after each *)
            let buf = Buffer.create 256 in
-           let _ = List.fold_left (fun s e ->
+           let _ = Stdlib.List.fold_left (fun s e ->
              let (s', out) = Window.step s (c07_ev e) in
-             Buffer.add_string buf (String.concat " , " (List.map c07_frame out));
+             Buffer.add_string buf (Stdlib.String.concat " , " (Stdlib.List.map c07_frame out));
              Buffer.add_string buf (" # " ^ c07_counters s' ^ " ; ");
              s') s0 evs in
            Buffer.contents buf
@@ -80,9 +80,9 @@ let c08 (rest : string) : string =
   match split_on rest '|' with
   | hdr :: evs ->
       let evs = match evs with [] -> [] | [e] -> split_on e ';' | _ -> failwith "c08: too many |" in
-      let s0 = SenderCredit.linit (n_of_string (String.trim hdr)) in
+      let s0 = SenderCredit.linit (n_of_string (Stdlib.String.trim hdr)) in
       let buf = Buffer.create 256 in
-      let _ = List.fold_left (fun s e ->
+      let _ = Stdlib.List.fold_left (fun s e ->
         let ev = match words e with
           | ["F"; dc; cr; av; drain; echo] ->
               SenderCredit.LFlow { SenderCredit.lf_dc = opt_n dc; lf_credit = opt_n cr; lf_avail = opt_n av;
@@ -101,22 +101,138 @@ let c08 (rest : string) : string =
       Buffer.contents buf
   | [] -> failwith "c08: empty"
 
+(* ---------- codec: values as token text, numbers in hex ---------- *)
+let n_of_hex (s : string) : coq_N =
+  (* bit by bit, no OCaml integer involved, so 64-bit values are exact *)
+  let bits = ref [] in
+  Stdlib.String.iter (fun ch ->
+    let d = match ch with
+      | '0'..'9' -> Char.code ch - 48 | 'a'..'f' -> Char.code ch - 87 | 'A'..'F' -> Char.code ch - 55
+      | _ -> failwith "bad hex" in
+    bits := !bits @ [d land 8 <> 0; d land 4 <> 0; d land 2 <> 0; d land 1 <> 0]) s;
+  let rec strip = function false :: r -> strip r | l -> l in
+  match strip !bits with
+  | [] -> N0
+  | _ :: rest -> Npos (Stdlib.List.fold_left (fun p b -> if b then Coq_xI p else Coq_xO p) Coq_xH rest)
+
+let hex_of_n (x : coq_N) : string =
+  match x with
+  | N0 -> "0"
+  | Npos p ->
+      let rec bits p acc = match p with
+        | Coq_xH -> true :: acc | Coq_xO q -> bits q (false :: acc) | Coq_xI q -> bits q (true :: acc) in
+      let bl = bits p [] in
+      let pad = (4 - Stdlib.List.length bl mod 4) mod 4 in
+      let bl = Stdlib.List.init pad (fun _ -> false) @ bl in
+      let buf = Buffer.create 16 in
+      let rec go = function
+        | a :: b :: c :: d :: r ->
+            let v = (if a then 8 else 0) + (if b then 4 else 0) + (if c then 2 else 0) + (if d then 1 else 0) in
+            Buffer.add_char buf "0123456789abcdef".[v]; go r
+        | _ -> () in
+      go bl; Buffer.contents buf
+
+let bytes_of_hex (s : string) : coq_N list =
+  if s = "-" then [] else
+  Stdlib.List.init (Stdlib.String.length s / 2) (fun i -> n_of_int (int_of_string ("0x" ^ Stdlib.String.sub s (2 * i) 2)))
+let hex_of_bytes (b : coq_N list) : string =
+  if b = [] then "-" else Stdlib.String.concat "" (Stdlib.List.map (fun x -> Printf.sprintf "%02x" (int_of_n x)) b)
+
+let rec parse_value (toks : string list) : Value.value * string list =
+  match toks with
+  | "N" :: r -> (Value.VNull, r)
+  | "B" :: b :: r -> (Value.VBool (b = "1"), r)
+  | "ub" :: x :: r -> (Value.VUbyte (n_of_hex x), r)
+  | "us" :: x :: r -> (Value.VUshort (n_of_hex x), r)
+  | "ui" :: x :: r -> (Value.VUint (n_of_hex x), r)
+  | "ul" :: x :: r -> (Value.VUlong (n_of_hex x), r)
+  | "by" :: x :: r -> (Value.VByte (n_of_hex x), r)
+  | "sh" :: x :: r -> (Value.VShort (n_of_hex x), r)
+  | "in" :: x :: r -> (Value.VInt (n_of_hex x), r)
+  | "lo" :: x :: r -> (Value.VLong (n_of_hex x), r)
+  | "fl" :: x :: r -> (Value.VFloat (n_of_hex x), r)
+  | "do" :: x :: r -> (Value.VDouble (n_of_hex x), r)
+  | "d32" :: x :: r -> (Value.VDec32 (bytes_of_hex x), r)
+  | "d64" :: x :: r -> (Value.VDec64 (bytes_of_hex x), r)
+  | "d128" :: x :: r -> (Value.VDec128 (bytes_of_hex x), r)
+  | "ch" :: x :: r -> (Value.VChar (n_of_hex x), r)
+  | "ts" :: x :: r -> (Value.VTimestamp (n_of_hex x), r)
+  | "uu" :: x :: r -> (Value.VUuid (bytes_of_hex x), r)
+  | "bin" :: x :: r -> (Value.VBinary (bytes_of_hex x), r)
+  | "str" :: x :: r -> (Value.VString (bytes_of_hex x), r)
+  | "sym" :: x :: r -> (Value.VSymbol (bytes_of_hex x), r)
+  | "L" :: n :: r -> let (l, r') = parse_values (int_of_string ("0x" ^ n)) r in (Value.VList l, r')
+  | "A" :: n :: r -> let (l, r') = parse_values (int_of_string ("0x" ^ n)) r in (Value.VArray l, r')
+  | "M" :: n :: r ->
+      let rec go k r acc = if k = 0 then (Stdlib.List.rev acc, r) else
+        let (a, r1) = parse_value r in let (b, r2) = parse_value r1 in go (k - 1) r2 ((a, b) :: acc) in
+      let (l, r') = go (int_of_string ("0x" ^ n)) r [] in (Value.VMap l, r')
+  | "Dn" :: x :: r -> let (v, r') = parse_value r in (Value.VDescribed (Value.DName (bytes_of_hex x), v), r')
+  | "Dc" :: x :: r -> let (v, r') = parse_value r in (Value.VDescribed (Value.DCode (n_of_hex x), v), r')
+  | t :: _ -> failwith ("bad value token " ^ t)
+  | [] -> failwith "value expected"
+and parse_values (k : int) (toks : string list) : Value.value list * string list =
+  let rec go k r acc = if k = 0 then (Stdlib.List.rev acc, r) else
+    let (v, r') = parse_value r in go (k - 1) r' (v :: acc) in
+  go k toks []
+
+let rec print_value (b : Buffer.t) (v : Value.value) : unit =
+  let p = Buffer.add_string b in
+  match v with
+  | Value.VNull -> p "N"
+  | Value.VBool x -> p (if x then "B 1" else "B 0")
+  | Value.VUbyte n -> p ("ub " ^ hex_of_n n) | Value.VUshort n -> p ("us " ^ hex_of_n n)
+  | Value.VUint n -> p ("ui " ^ hex_of_n n) | Value.VUlong n -> p ("ul " ^ hex_of_n n)
+  | Value.VByte n -> p ("by " ^ hex_of_n n) | Value.VShort n -> p ("sh " ^ hex_of_n n)
+  | Value.VInt n -> p ("in " ^ hex_of_n n) | Value.VLong n -> p ("lo " ^ hex_of_n n)
+  | Value.VFloat n -> p ("fl " ^ hex_of_n n) | Value.VDouble n -> p ("do " ^ hex_of_n n)
+  | Value.VDec32 x -> p ("d32 " ^ hex_of_bytes x) | Value.VDec64 x -> p ("d64 " ^ hex_of_bytes x)
+  | Value.VDec128 x -> p ("d128 " ^ hex_of_bytes x)
+  | Value.VChar n -> p ("ch " ^ hex_of_n n) | Value.VTimestamp n -> p ("ts " ^ hex_of_n n)
+  | Value.VUuid x -> p ("uu " ^ hex_of_bytes x) | Value.VBinary x -> p ("bin " ^ hex_of_bytes x)
+  | Value.VString x -> p ("str " ^ hex_of_bytes x) | Value.VSymbol x -> p ("sym " ^ hex_of_bytes x)
+  | Value.VList l -> p (Printf.sprintf "L %x" (Stdlib.List.length l)); Stdlib.List.iter (fun x -> p " "; print_value b x) l
+  | Value.VArray l -> p (Printf.sprintf "A %x" (Stdlib.List.length l)); Stdlib.List.iter (fun x -> p " "; print_value b x) l
+  | Value.VMap l -> p (Printf.sprintf "M %x" (Stdlib.List.length l));
+      Stdlib.List.iter (fun (k, x) -> p " "; print_value b k; p " "; print_value b x) l
+  | Value.VDescribed (Value.DName s, x) -> p ("Dn " ^ hex_of_bytes s ^ " "); print_value b x
+  | Value.VDescribed (Value.DCode n, x) -> p ("Dc " ^ hex_of_n n ^ " "); print_value b x
+
+let rec nat_of_int (i : int) : Datatypes.nat = if i <= 0 then Datatypes.O else Datatypes.S (nat_of_int (i - 1))
+
+let codec_enc (rest : string) : string =
+  let (v, r) = parse_value (words rest) in
+  if r <> [] then failwith "enc: trailing tokens" else
+  match Enc.enc_bytes v with
+  | Some b -> "OK " ^ hex_of_bytes b
+  | None -> "ERR"
+
+let codec_dec (rest : string) : string =
+  let bs = bytes_of_hex (Stdlib.String.trim rest) in
+  match Dec.from_slice (nat_of_int (Stdlib.List.length bs + 1)) bs with
+  | Bytes.Ok (v, _) -> let b = Buffer.create 64 in Buffer.add_string b "OK "; print_value b v; Buffer.contents b
+  | Bytes.Err _ -> "ERR"
+  | Bytes.Panic -> "PANIC"
+  | Bytes.OutOfFuel -> "OUTOFFUEL"
+
 let dispatch (line : string) : string =
-  match String.index_opt line ' ' with
+  match Stdlib.String.index_opt line ' ' with
   | None -> failwith "no model tag"
   | Some i ->
-      let tag = String.sub line 0 i in
-      let rest = String.sub line (i + 1) (String.length line - i - 1) in
+      let tag = Stdlib.String.sub line 0 i in
+      let rest = Stdlib.String.sub line (i + 1) (Stdlib.String.length line - i - 1) in
       (match tag with
        | "c07" -> c07 rest
        | "c08" -> c08 rest
+       | "enc" -> codec_enc rest
+       | "dec" -> codec_dec rest
        | _ -> failwith ("unknown model " ^ tag))
 
 let () =
   try
     while true do
       let line = input_line stdin in
-      if String.trim line <> "" then begin
+      if Stdlib.String.trim line <> "" then begin
         let out = try dispatch line with Failure m -> "ORACLE-ERROR " ^ m in
         print_string out; print_newline ()
       end
